@@ -144,7 +144,7 @@ def _c13():
 
 def _c04():
     class_c, mapping_c, mf = _names()
-    return (ENC_PRIM + [FRM + '_marshal', FRM + 'marshal', FRM + '_marshal_content_body_frame',
+    return (ENC_PRIM + ENC_TABLE[:5] + [FRM + '_marshal', FRM + 'marshal', FRM + '_marshal_content_body_frame',
                         'pamqp.header.ProtocolHeader.marshal', 'pamqp.heartbeat.Heartbeat.marshal',
                         'pamqp.body.ContentBody.marshal']
             + class_c.names('marshal') + mf.names('marshal_method_frame') + mf.names('frame_marshal')
@@ -161,7 +161,7 @@ def _c01():
 
 def _c05():
     class_c, mapping_c, mf = _names()
-    return (DEC_PRIM + [FRM + 'frame_parts', (FRM + 'unmarshal', UNMARSHAL_RETURNS)]
+    return (DEC_PRIM + DEC_TABLE + [FRM + 'frame_parts', (FRM + 'unmarshal', UNMARSHAL_RETURNS)]
             + [(n, {'grammar-valid-arguments'}) for n in class_c.names('unmarshal')]
             + [(n, {'method'}) for n in mf.names('unmarshal_method_frame')[:-1]] + mf.names('unmarshal_g')
             + [(BPN + 'unmarshal', {'grammar-valid-properties'}), (CHN + 'unmarshal', {'grammar-valid-header'}),
@@ -171,7 +171,7 @@ def _c05():
 
 def _c09():
     class_c, mapping_c, mf = _names()
-    return (DEC_PRIM + [FRM + 'frame_parts', FRM + '_unmarshal_protocol_header_frame', FRM + '_unmarshal_body_frame',
+    return (DEC_PRIM + DEC_TABLE + [FRM + 'frame_parts', FRM + '_unmarshal_protocol_header_frame', FRM + '_unmarshal_body_frame',
                         (FRM + 'unmarshal', UNMARSHAL_RAISES | {'method', 'content-header'})]
             + [(n, {'anything-else'}) for n in class_c.names('unmarshal')]
             + mf.names('unmarshal_method_frame')
@@ -196,13 +196,58 @@ def _c02():
 
 def _c08():
     class_c, mapping_c, mf = _names()
-    return (DEC_PRIM + [CHN + '_get_flags', BPN + 'unmarshal', CHN + 'unmarshal', FRM + '_unmarshal_header_frame',
+    return (DEC_PRIM + DEC_TABLE + [CHN + '_get_flags', BPN + 'unmarshal', CHN + 'unmarshal', FRM + '_unmarshal_header_frame',
                         FRM + 'frame_parts', FRM + 'unmarshal', FRM + 'unmarshal(env)']
             + [(n, {'anything-else', 'grammar-valid-arguments'}) for n in class_c.names('unmarshal')]
             + mf.names('unmarshal_method_frame'))
 
 
+ENC_TABLE = [ENC + n for n in ('field_array', 'field_table', 'encode_table_value', 'table_integer',
+                               '_deprecated_table_integer', 'decimal')]
+DEC_TABLE = [DEC + n for n in ('embedded_value', 'field_table', 'field_table(t)', 'field_array', 'field_array(t)', 'decimal')]
+
+
+TABLE_CLAUSES = {'no-table', 'empty-table', 'table', 'table-with-unencodable-content'}
+
+
+def _c03():
+    return (ENC_PRIM + DEC_PRIM + [x if x != ENC + 'field_table' else (x, TABLE_CLAUSES) for x in ENC_TABLE]
+            + [x for x in DEC_TABLE if not x.endswith('(t)')])
+
+
+def _c10():
+    class_c, mapping_c, mf = _names()
+    return (ENC_PRIM + ENC_TABLE + [ENC + 'bit', FRM + '_marshal']
+            + [(n, {'invalid-arguments', 'refused', 'encoded'}) for n in class_c.names('marshal')]
+            + [(BPN + 'marshal', {'refused', 'encoded'}), (CHN + 'marshal', {'refused', 'encoded'})])
+
+
+def _c12():
+    class_c, mapping_c, mf = _names()
+    return ([ENC + 'field_array', (ENC + 'field_table', TABLE_CLAUSES), ENC + 'encode_table_value'] + ENC_PRIM
+            + class_c.names('marshal') + mf.names('frame_marshal')
+            + [BPN + 'marshal', CHN + 'marshal', FRM + 'marshal[ContentHeader]', FRM + 'marshal', FRM + '_marshal',
+               'pamqp.body.ContentBody.marshal', 'pamqp.header.ProtocolHeader.marshal', 'pamqp.heartbeat.Heartbeat.marshal'])
+
+
 PROPS = {
+    'C03': PropSpec('C03', contracts=_c03(), lemmas=[L + 'c03_roundtrip'], floor=1000,
+                    assumptions=['containers: the composition dec(enc(d)) == norm_value(d) of the verified encoder and decoder '
+                                 'contracts is a specification-level induction, taken as an axiom in the lemma and exercised by the '
+                                 'bounded stand-in; scalars are proved outright',
+                                 'encode.decimal goes through str(value): bounded stand-in, never counted as discharged',
+                                 'float packing, datetime arithmetic: assumed library contracts A3/A5',
+                                 'nesting depth: unbounded under A8 (recursive calls use the contract)'],
+                    extra=lambda tier, rng: __import__('props.bounded', fromlist=['x']).field_values('C03', tier, rng)),
+    'C10': PropSpec('C10', contracts=_c10(), floor=2500,
+                    assumptions=['every encoder contract lists, for every Python type class, either the exact bytes (whose decoding '
+                                 'is the normalised input by the lemmas of C01-C03) or the exception class; '
+                                 'values of foreign types: A8']),
+    'C12': PropSpec('C12', contracts=_c12(), floor=2500,
+                    assumptions=['determinism: every encoder clause is `returns <function of the argument values>`; '
+                                 'order independence: the specification encodes dict_sorted(d), which by A4 depends on the '
+                                 'contents only; non-mutation: a write to a caller-owned object fails the modifies-nothing obligation'],
+                    extra=lambda tier, rng: __import__('props.bounded', fromlist=['x']).table_order('C12', tier, rng)),
     'C02': PropSpec('C02', contracts=_c02(), lemmas=[L + 'c02_roundtrip', L + 'c02_reencode'], floor=2000,
                     assumptions=['header tables: dec_table(enc_table(d)) == norm_value(d) and enc_table(norm_value(d)) == enc_table(d) (decided in the C03 cone)',
                                  'timestamps: dt_seconds / dt_of_seconds are the whole-second UTC reading (encode.timestamp and decode.timestamp enter through assumed contracts; C15)',
@@ -231,7 +276,7 @@ PROPS = {
                                  'tools/codegen.py is not executed (needs network); the property is about the shipped module']),
     'C17': PropSpec('C17', ground=['C17.reply-codes', 'C17.constants'], floor=100, exhaustive=True,
                     assumptions=['the reply-code table in spec/tables.py is a hand transcription (trusted artefact)']),
-    'C11': PropSpec('C11', contracts=C11_CONE,
+    'C11': PropSpec('C11', contracts=C11_CONE + [ENC + 'encode_table_value', ENC + 'field_table', ENC + 'field_array'],
                     lemmas=['contracts.lemmas.c11_toggle', 'contracts.lemmas.c11_toggle_default'],
                     ground=['C11.switch-default'], floor=150,
                     assumptions=['the legacy switch holds a bool (the setter stores its argument unchecked)']),
